@@ -12,6 +12,10 @@
 #include <unistd.h>
 #include <vector>
 
+// ---- S5: the MEMALLOC knob (only consulted by /repo when built with -DLIBCSD_VERIF) ----------------
+static unsigned long g_memalloc = 32768;
+extern "C" unsigned long libcsd_verif_memalloc(void) { return g_memalloc; }
+
 // ---- spec strings: "k=v,k=v,trace=1:0:2" --------------------------------------------------------
 typedef std::map<std::string, std::string> Spec;
 static inline Spec parse_spec(const std::string &s) {
